@@ -533,6 +533,23 @@ func TestBoundedC01Fits(t *testing.T) {
 		return st
 	}
 	mergeShards(st, patterns, shard)
+	// property variables (a variable as the sole key of a map), unbound and pre-bound to a key
+	var pv []J
+	for _, k := range []string{"?x", "?y", "?"} {
+		for _, v := range []J{1.0, "x", "?y", "?x", "?", map[string]J{"a": "?y"}, []J{"?y"}} {
+			pv = append(pv, map[string]J{k: v}, map[string]J{"a": map[string]J{k: v}}, []J{map[string]J{k: v}})
+		}
+	}
+	mainInits := inits
+	inits = []Bindings{{}, {"?x": "a"}, {"?x": "b"}, {"?y": "a"}, {"?x": "a", "?y": 1.0}, {"?x": 1.0}}
+	st2 := &stats{}
+	mergeShards(st2, pv, shard)
+	inits = mainInits
+	st.Patterns += len(pv)
+	st.Evaluations += st2.Evaluations
+	st.Nontrivial += st2.Nontrivial
+	st.Failures = append(st.Failures, st2.Failures...)
+	st.Bound += fmt.Sprintf("; plus %d property-variable patterns ({?k: v} at the top, under a key, in an array) with the variable unbound or pre-bound to a key (6 initial binding sets)", len(pv))
 	emit(st)
 	if len(st.Failures) > 0 {
 		t.Fatalf("C01 bounded: %d failures, first: %s", len(st.Failures), st.Failures[0])
@@ -649,6 +666,25 @@ func TestBoundedC02Embeddings(t *testing.T) {
 		return st
 	}
 	mergeShards(st, patterns, shard)
+	// null: as a constant in patterns and as a value in messages (a present property whose value is null is present)
+	var np []J
+	for _, p := range values(2, []J{nil, "?x"}, 2) {
+		vs := map[string]int{}
+		varsOf(p, vs)
+		if supported(p) && vs["?x"] <= 1 {
+			np = append(np, p)
+		}
+	}
+	mainMessages := messages
+	messages = values(2, []J{1.0, nil}, marr)
+	st2 := &stats{}
+	mergeShards(st2, np, shard)
+	st.Patterns += len(np)
+	st.Evaluations += st2.Evaluations
+	st.Nontrivial += st2.Nontrivial
+	st.Failures = append(st.Failures, st2.Failures...)
+	st.Bound += fmt.Sprintf("; plus %d patterns over the leaves [null,\"?x\"] against %d messages over [1,null]", len(np), len(messages))
+	messages = mainMessages
 	emit(st)
 	if len(st.Failures) > 0 {
 		t.Fatalf("C02 bounded: %d failures, first: %s", len(st.Failures), st.Failures[0])
